@@ -81,7 +81,8 @@ class Finder:
         # shortcut if Sid is not a search (an extension alias as last value is a search: it needs unfolding)
         sid = Sid(search_sid)
         is_alias = str(sid).split(conf.sip)[-1] in conf.extension_alias
-        if sid and not sid.is_search() and not is_alias:
+        has_query = "?" in sid.string  # an un-applied query cannot be searched: unfolding drops it
+        if sid and not sid.is_search() and not is_alias and not has_query:
             generator = self.do_find([sid], as_sid=as_sid)
         else:
             search_sids = unfold_search(search_sid)
